@@ -373,6 +373,26 @@ ADDENDA7 = {
     "C18": "; shape of membership comparators (IntFlag containment); name-derived inheritance in the bundled configuration",
     "C19": "; truth tests of addresses; element type of the reader's zero points",
 }
+ADDENDA8 = {
+    "C03": "; containers of cloned operators are not shared; idle core windows",
+    "C04": "; member forwarding of to_kernel against both constructors' parameter lists",
+    "C05": "; closed usage intervals (only end < start is empty)",
+    "C06": "; width of the IFM2_SCALAR field (finding F115)",
+    "C07": "; clang-AST element types of typed allocations; parameter-named arguments of the C call into the encoder",
+    "C08": "; per-core scale windows and accelerator map (borrowed); largest-slice size of the single weight buffer",
+    "C09": "; rounding mode of the lowered average pool",
+    "C11": "; numpy view rows of the tensor type table; accessor names of operand vectors; sort key of hoisted CPU passes",
+    "C12": "; truth tests over consumer lists; CPU rows of the pass-packing automaton; variable tensors excluded from in-place reuse",
+    "C13": "; quantifier of the scale check; must-append on every path of the buffer loop; member order of debug-database pairs",
+    "C14": "; re-binding of module-level names in functions",
+    "C15": "; block configuration of the applied schedule; interpretation of _ifm_blockdepth; one-sided swapped arguments",
+    "C16": "; type coverage of the SOFTMAX lowering; element count in is_per_axis; semantic checker on every reader path",
+    "C18": "; relabelled port of Sram-only modes; number conversion; documented bandwidths of the bundled configuration",
+    "C19": "; shared quantisation records and numpy view rows (borrowed)",
+}
+for _pid, _t8 in ADDENDA8.items():
+    _tech, _text, _note, _ref = CLAIMS[_pid]
+    CLAIMS[_pid] = (_tech + _t8, _text, _note, _ref)
 for _pid, _t7 in ADDENDA7.items():
     _tech, _text, _note, _ref = CLAIMS[_pid]
     CLAIMS[_pid] = (_tech + _t7, _text, _note, _ref)
